@@ -11,6 +11,7 @@
 //   values      Kf eps_d (sup|f| + |S| sup|f'|)              [+ solver term for the variants that call a solver]
 //   derivative  50 (FD error estimate) + Kd eps_d (sup|f'| + |S| sup|f''|)
 //               + Kd eps_d (sup|f| + |S| sup|f'|) / (smallest gap not merged by the eps argument)   (cancellation)
+//               + 512 eps_L (sup|f| + |S| sup|f'|) / h                                             (rounding floor of the FD)
 //               + 16 eps sup|f''|  when a gap is below the eps argument (regularised regime)
 //   cases whose rounding part exceeds 1e-4 of the scale of the derivative are skipped (ill-conditioned),
 //   as are directions where the finite differences did not converge.
@@ -178,6 +179,8 @@ static Tol<F> tolerances(const L w[3], L nA, L eps, L slack, L delta_solver) {
   t.dscale = s.f1 + nA * s.f2 + 1e-300L;
   // rounding of the inputs and of the divided differences (f_i - f_j) / (l_i - l_j)
   t.der_round = KD * EPSD * (s.f1 + nA * s.f2);
+  // rounding floor of the long-double finite differences themselves: eps_L |F| / h with h = 1e-4 max(1, |S|)
+  t.der_round += 512 * L(std::numeric_limits<L>::epsilon()) * (s.f0 + nA * s.f1) / (1e-4L * std::max<L>(1, nA));
   if (std::isfinite(double(g.unmerged))) t.der_round += KD * EPSD * (s.f0 + nA * s.f1) / g.unmerged;
   // error of the eigen-decomposition the entry point starts from (eigenvalues delta |S|, eigenvectors delta |S| / gap)
   t.der_solver = KSOLV * delta_solver * (s.f1 + nA * s.f2);
